@@ -63,6 +63,8 @@ def _bases(kind, tier):
                     out.append(((100.0, -50.0, z0), (100.0 + 0.8 * rho, -50.0 + 0.6 * rho, z1)))
         if n_q:
             out = out[::3]
+        # one end point outside the ice (above the surface / below the valid range): no ray either way
+        out += [((100.0, -50.0, 5.0), (180.0, 10.0, -100.0)), ((100.0, -50.0, -2900.0), (180.0, 10.0, -200.0))]
     elif kind.startswith("uniform"):
         for z0 in (-100.0, -250.0, -700.0):
             for z1 in (-100.0, -400.0, -799.0):
@@ -88,6 +90,9 @@ def _bases(kind, tier):
         for z0 in (-50.0, -450.0):
             for z1 in (zb, 0.0):
                 out.append(((64.0, -128.0, z0), (64.0 + 240.0, -128.0 + 180.0, z1)))
+        if kind == "layered_uu":
+            # exactly vertical pairs: every upward-starting solution has launch angle 0, every downward-starting one pi
+            out += [((64.0, -128.0, -50.0), (64.0, -128.0, -300.0)), ((64.0, -128.0, -350.0), (64.0, -128.0, -100.0))]
     return out
 
 
